@@ -18,4 +18,36 @@ func init() {
 			"computation takes zero simulated time; slowness exists only as scripted delays",
 		},
 	}
+	plans["C03"] = plan{
+		Level: "exploration",
+		Parts: []part{{"C", "normal", 12000, 2}, {"C", "limits", 24000, 3}},
+		Rule: "each run = one seeded scenario (1-4 generations on one queue directory; per generation a sequence of Accept calls with boundary-biased sizes, " +
+			"a consumer script confirm/hold/stall/never-start/stop-early, Destroy at an arbitrary point; memory window, queue capacity and byte quota drawn per run; " +
+			"optionally an unusable queue directory) executed under one seeded goroutine schedule on the simulated disk. Oracle: conservation (confirmed => file gone; " +
+			"else identical file, else counted dropped; lost <= dropped_chunks_total), at-most-once confirmation across generations, FIFO delivery with recovered chunks first, " +
+			"byte equality, Accept takes zero simulated time, memory window bound on feeder-fair schedules, byte quota, Destroy within its own timeout. Non-trivial: a limit, " +
+			"stall or directory fault fired and obligations were evaluated; distinct = (scenario hash, context-switch hash).",
+		Real: []string{"buffer/hybridbuffer (bufferer, outputFeeder, chunkManager, chunkOperator, queuedirs)", "util/files.go", "gotils channels, promext gauges"},
+		Stub: []string{"disk (simfs in-memory tree behind os/unix/xattr façades)", "chunk producer", "scripted consumer"},
+		Assumption: []string{
+			"API contract of orchestrate/obase/pipelines.go: no Accept concurrent with or after Destroy",
+			"the memory bound is evaluated only when the feeder is allowed to reach its blocking point between two Accepts (the spill decision looks at the window length)",
+			"crash model = process kill; no power loss (the code never fsyncs and the property does not claim it)",
+		},
+	}
+	plans["C04"] = plan{
+		Level: "fault_enumeration",
+		Parts: []part{{"C", "disk", 30000, 2}, {"C", "enum", 320, 3}},
+		Rule: "world C with disk faults. Profile disk: 1-3 seeded faults per run (short write with nil error, error after k bytes, ENOSPC/EIO/EDQUOT at create/write/close/unlink/read, " +
+			"kill at an operation or after k bytes of a write, unreadable file), then restarts and a final healthy generation. Profile enum: for each seeded base scenario the " +
+			"fault-free run records the file-system trace; the scenario is then re-run once per fault point: every create/write/close of every chunk file x {kill, error} and for " +
+			"write every byte offset k in {0,1,n/2,n-1,n} plus random ones as short write, error after k bytes and kill after k bytes. Oracle: every chunk any consumer ever receives is " +
+			"byte-identical to what was produced; an intact readable file is delivered by the final healthy generation whatever damaged files sit beside it. Non-trivial: a disk fault fired.",
+		Real: []string{"buffer/hybridbuffer", "util/files.go (WriteFileAt/ReadFileAt/UnlinkFileAt/StatFileAt)"},
+		Stub: []string{"disk (simfs) with per-operation fault hook and process-kill model", "producer", "scripted consumer"},
+		Assumption: []string{
+			"crash model = process kill: every completed write(2) survives, the write in progress stops after k bytes, nothing else is lost; power loss is out of scope",
+			"a short write returns n < len with nil error, as write(2) does when the disk fills or a file-size limit is hit mid-call",
+		},
+	}
 }
